@@ -109,6 +109,7 @@ def check_model(cfg, mdl, pre=""):
         require(np.max(np.abs(col + cum - 1.0)) <= 1e-11, f"{pre}survival-plus-outflow-not-one", f"cohort {c}: {np.max(np.abs(col + cum - 1.0)):.3g}")
     # ---- differential against closed forms -------------------------------------------
     bounds = sg.documented_bounds(grid)
+    nice_grid = all(float(x) * 8 == int(float(x) * 8) and abs(x) < 2**20 for x in grid)
     etas, ws = eta_weights(lt)
     pf = {name: sg.prm_value_fn(U, p) for name, p in lt["prms"].items()}
     items = build.uitems(U)
@@ -127,6 +128,17 @@ def check_model(cfg, mdl, pre=""):
                     age = bounds[t + 1] - (bounds[c] + eta * (bounds[c + 1] - bounds[c]))
                     if cls == "FixedLifetime":
                         m = th["mean"]
+                        if eta in (0.0, 0.5, 1.0) and nice_grid and float(m) * 8 == int(float(m) * 8):
+                            # grid, inflow instant and lifetime are small dyadic numbers: the age is exact in floating
+                            # point, so a tie (age == lifetime) is decided by the distribution itself: P(T > age) = 0
+                            from fractions import Fraction as Fr
+
+                            e_ = Fr(eta)
+                            age_x = Fr(bounds[t + 1]) - (Fr(bounds[c]) + e_ * (Fr(bounds[c + 1]) - Fr(bounds[c])))
+                            v = 1.0 if age_x < Fr(float(m)) else 0.0
+                            lo += w * v
+                            hi += w * v
+                            continue
                         lo += w * (1.0 if age < m - 1e-9 else 0.0)
                         hi += w * (1.0 if age < m + 1e-9 else 0.0)
                         continue
